@@ -141,6 +141,8 @@ func Opt() *dns.OPT {
 		&dns.EDNS0_EDE{InfoCode: dns.ExtendedErrorCodeStaleAnswer, ExtraText: "stale"},
 		&dns.EDNS0_ESU{Code: dns.EDNS0ESU, Uri: "sip:+123@example.org"},
 		&dns.EDNS0_LOCAL{Code: dns.EDNS0LOCALSTART + 1, Data: []byte{1, 2, 3}},
+		&dns.EDNS0_REPORTING{Code: dns.EDNS0REPORTING, AgentDomain: "agent.example.org."},
+		&dns.EDNS0_ZONEVERSION{Code: dns.EDNS0ZONEVERSION, LabelCount: 2, Type: 0, Version: "\x78\x49\x9d\x01"},
 	}
 	return o
 }
